@@ -67,10 +67,12 @@ def signature(vclass, detail):
             return "%s|accepts=%s|rejects=%s|%s" % (vclass, comp_a, comp_b, strip(b.get("diag", "")))
         if not a.get("ok", True):
             return "%s|accepts=%s|rejects=%s|%s" % (vclass, comp_b, comp_a, strip(a.get("diag", "")))
-        return "%s|output differs: %s" % (vclass, re.sub(r"\d+", "N", str((detail.get("diff") or {}).get("a", ""))[:60]))
+        first = (str((detail.get("diff") or {}).get("a", "")).strip().split() or ["?"])[0]
+        return "%s|output differs at: %s" % (vclass, re.sub(r"\d+", "N", first))
     if vclass == "RESULT_MISMATCH":
         d = detail.get("diff") or {}
-        return "%s|%s" % (vclass, re.sub(r"\d+", "N", str(d.get("a", ""))[:80]))
+        first = (str(d.get("a", "")).strip().split() or ["?"])[0]
+        return "%s|output differs at: %s" % (vclass, re.sub(r"\d+", "N", first))
     if vclass in ("GEN_FAIL", "GEN_HANG", "HANG_UNDER_FAULT"):
         return "%s|%s|%s" % (vclass, detail.get("exc"), re.sub(r"\d+", "N", (detail.get("tb_tail") or "")[-100:]))
     if vclass in ("SILENT_FAULT", "HANDLED_FAULT_CHANGED_OUTPUT", "NONDETERMINISTIC_OUTPUT"):
